@@ -266,3 +266,814 @@ impl<T> SegQueue<T> {
     #[verifier::external_body]
     pub fn push(&self, value: T) { unimplemented!() }
 }
+
+// ================================================================ rest of the public API of the env types
+// (declared so that a refactoring that reaches for a sibling accessor still type-checks and is
+// verified; unless a contract is given nothing is known about the result)
+#[verifier::external_body] pub struct Time { _opaque: () }
+#[verifier::external_body] pub struct Serial { _opaque: () }
+#[verifier::external_body] pub struct AsResources { _opaque: () }
+#[verifier::external_body] pub struct IpResources { _opaque: () }
+#[verifier::external_body] pub struct IpBlocks { _opaque: () }
+#[verifier::external_body] pub struct AsBlocks { _opaque: () }
+#[verifier::external_body] pub struct VerificationError { _opaque: () }
+#[verifier::external_body] pub struct InspectionError { _opaque: () }
+#[verifier::external_body] pub struct X509Name { _opaque: () }
+pub enum KeyUsage { Ca, Ee }
+impl PartialEqSpecImpl for KeyUsage {
+    open spec fn obeys_eq_spec() -> bool { true }
+    open spec fn eq_spec(&self, other: &KeyUsage) -> bool { *self == *other }
+}
+impl PartialEq for KeyUsage {
+    #[verifier::external_body]
+    fn eq(&self, other: &Self) -> bool { unimplemented!() }
+}
+impl Cert {
+    #[verifier::external_body]
+    pub fn serial_number(&self) -> (r: Serial)
+    { unimplemented!() }
+}
+impl Cert {
+    #[verifier::external_body]
+    pub fn issuer(&self) -> (r: &X509Name)
+    { unimplemented!() }
+}
+impl Cert {
+    #[verifier::external_body]
+    pub fn subject(&self) -> (r: &X509Name)
+    { unimplemented!() }
+}
+impl Cert {
+    #[verifier::external_body]
+    pub fn authority_key_identifier(&self) -> (r: Option<KeyIdentifier>)
+    { unimplemented!() }
+}
+impl Cert {
+    #[verifier::external_body]
+    pub fn basic_ca(&self) -> (r: Option<bool>)
+    { unimplemented!() }
+}
+impl Cert {
+    #[verifier::external_body]
+    pub fn key_usage(&self) -> (r: KeyUsage)
+    { unimplemented!() }
+}
+impl Cert {
+    #[verifier::external_body]
+    pub fn crl_uri(&self) -> (r: Option<&RsyncUri>)
+    { unimplemented!() }
+}
+impl Cert {
+    #[verifier::external_body]
+    pub fn ca_issuer(&self) -> (r: Option<&RsyncUri>)
+    { unimplemented!() }
+}
+impl Cert {
+    #[verifier::external_body]
+    pub fn signed_object(&self) -> (r: Option<&RsyncUri>)
+    { unimplemented!() }
+}
+impl Cert {
+    #[verifier::external_body]
+    pub fn rpki_notify(&self) -> (r: Option<&HttpsUri>)
+    { unimplemented!() }
+}
+impl Cert {
+    #[verifier::external_body]
+    pub fn has_ip_resources(&self) -> (r: bool)
+    { unimplemented!() }
+}
+impl Cert {
+    #[verifier::external_body]
+    pub fn as_resources(&self) -> (r: &AsResources)
+    { unimplemented!() }
+}
+impl Cert {
+    #[verifier::external_body]
+    pub fn v4_resources(&self) -> (r: &IpResources)
+    { unimplemented!() }
+}
+impl Cert {
+    #[verifier::external_body]
+    pub fn v6_resources(&self) -> (r: &IpResources)
+    { unimplemented!() }
+}
+impl Cert {
+    #[verifier::external_body]
+    pub fn validate_ta_at(self, info: Arc<TalInfo>, strict: bool, now: Time) -> (r: Result<ResourceCert, ValidationError>)
+    { unimplemented!() }
+}
+impl Cert {
+    #[verifier::external_body]
+    pub fn validate_ca_at(self, issuer: &ResourceCert, strict: bool, now: Time) -> (r: Result<ResourceCert, ValidationError>)
+    { unimplemented!() }
+}
+impl Cert {
+    #[verifier::external_body]
+    pub fn validate_ee(self, issuer: &ResourceCert, strict: bool) -> (r: Result<ResourceCert, ValidationError>)
+    { unimplemented!() }
+}
+impl Cert {
+    #[verifier::external_body]
+    pub fn validate_ee_at(self, issuer: &ResourceCert, strict: bool, now: Time) -> (r: Result<ResourceCert, ValidationError>)
+    { unimplemented!() }
+}
+impl Cert {
+    #[verifier::external_body]
+    pub fn validate_router(&self, issuer: &ResourceCert, strict: bool) -> (r: Result<(), ValidationError>)
+    { unimplemented!() }
+}
+impl Cert {
+    #[verifier::external_body]
+    pub fn validate_router_at(&self, issuer: &ResourceCert, strict: bool, now: Time) -> (r: Result<(), ValidationError>)
+    { unimplemented!() }
+}
+impl Cert {
+    #[verifier::external_body]
+    pub fn inspect_ta(&self, strict: bool) -> (r: Result<(), InspectionError>)
+    { unimplemented!() }
+}
+impl Cert {
+    #[verifier::external_body]
+    pub fn inspect_ca(&self, strict: bool) -> (r: Result<(), InspectionError>)
+    { unimplemented!() }
+}
+impl Cert {
+    #[verifier::external_body]
+    pub fn inspect_ee(&self, strict: bool) -> (r: Result<(), InspectionError>)
+    { unimplemented!() }
+}
+impl Cert {
+    #[verifier::external_body]
+    pub fn inspect_router(&self, strict: bool) -> (r: Result<(), InspectionError>)
+    { unimplemented!() }
+}
+impl Cert {
+    #[verifier::external_body]
+    pub fn verify_ta(self, info: Arc<TalInfo>, strict: bool) -> (r: Result<ResourceCert, VerificationError>)
+    { unimplemented!() }
+}
+impl Cert {
+    #[verifier::external_body]
+    pub fn verify_ca(self, issuer: &ResourceCert, strict: bool) -> (r: Result<ResourceCert, VerificationError>)
+    { unimplemented!() }
+}
+impl Cert {
+    #[verifier::external_body]
+    pub fn verify_ee(self, issuer: &ResourceCert, strict: bool) -> (r: Result<ResourceCert, VerificationError>)
+    { unimplemented!() }
+}
+impl Cert {
+    #[verifier::external_body]
+    pub fn verify_router(&self, issuer: &ResourceCert, strict: bool) -> (r: Result<(), VerificationError>)
+    { unimplemented!() }
+}
+impl ResourceCert {
+    #[verifier::external_body]
+    pub fn v4_resources(&self) -> (r: &IpBlocks)
+    { unimplemented!() }
+}
+impl ResourceCert {
+    #[verifier::external_body]
+    pub fn v6_resources(&self) -> (r: &IpBlocks)
+    { unimplemented!() }
+}
+impl ResourceCert {
+    #[verifier::external_body]
+    pub fn as_resources(&self) -> (r: &AsBlocks)
+    { unimplemented!() }
+}
+impl ResourceCert {
+    #[verifier::external_body]
+    pub fn tal(&self) -> (r: &Arc<TalInfo>)
+    { unimplemented!() }
+}
+impl ResourceCert {
+    #[verifier::external_body]
+    pub fn into_tal(self) -> (r: Arc<TalInfo>)
+    { unimplemented!() }
+}
+// rpki: `impl Deref for ResourceCert { type Target = Cert }`
+impl std::ops::Deref for ResourceCert {
+    type Target = Cert;
+    #[verifier::external_body]
+    fn deref(&self) -> (r: &Cert) ensures *r == self.cert_spec() { unimplemented!() }
+}
+impl Tal {
+    #[verifier::external_body]
+    pub fn prefer_https(&mut self)
+    { unimplemented!() }
+}
+impl TalInfo {
+    #[verifier::external_body]
+    pub fn from_name(name: String) -> (r: TalInfo)
+    { unimplemented!() }
+}
+impl TalInfo {
+    #[verifier::external_body]
+    pub fn into_arc(self) -> (r: Arc<TalInfo>)
+    { unimplemented!() }
+}
+impl TalUri {
+    #[verifier::external_body]
+    pub fn is_rsync(&self) -> (r: bool)
+        ensures r == (self is Rsync),
+    { unimplemented!() }
+}
+impl TalUri {
+    #[verifier::external_body]
+    pub fn is_https(&self) -> (r: bool)
+        ensures r == (self is Https),
+    { unimplemented!() }
+}
+impl TalUri {
+    #[verifier::external_body]
+    pub fn as_str(&self) -> (r: &str)
+    { unimplemented!() }
+}
+#[verifier::external_body] pub struct Crl { _opaque: () }
+#[verifier::external_body] pub struct Manifest { _opaque: () }
+#[verifier::external_body] pub struct ManifestContent { _opaque: () }
+#[verifier::external_body] pub struct MftItem { _opaque: () }
+#[verifier::external_body] pub struct MftIter { _opaque: () }
+#[verifier::external_body] pub struct ManifestHash { _opaque: () }
+#[verifier::external_body] pub struct DigestAlgorithm { _opaque: () }
+#[verifier::external_body] pub struct HashMismatch { _opaque: () }
+impl Crl {
+    #[verifier::external_body]
+    pub fn decode(source: Bytes) -> (r: Result<Crl, DecodeError>)
+    { unimplemented!() }
+}
+impl Crl {
+    #[verifier::external_body]
+    pub fn contains(&self, serial: Serial) -> (r: bool)
+    { unimplemented!() }
+}
+impl Crl {
+    #[verifier::external_body]
+    pub fn cache_serials(&mut self)
+    { unimplemented!() }
+}
+impl Crl {
+    #[verifier::external_body]
+    pub fn verify_signature(&self, key: &PublicKey) -> (r: Result<(), ValidationError>)
+    { unimplemented!() }
+}
+impl Crl {
+    #[verifier::external_body]
+    pub fn this_update(&self) -> (r: Time)
+    { unimplemented!() }
+}
+impl Crl {
+    #[verifier::external_body]
+    pub fn next_update(&self) -> (r: Time)
+    { unimplemented!() }
+}
+impl Crl {
+    #[verifier::external_body]
+    pub fn is_stale(&self) -> (r: bool)
+    { unimplemented!() }
+}
+impl Crl {
+    #[verifier::external_body]
+    pub fn crl_number(&self) -> (r: Serial)
+    { unimplemented!() }
+}
+impl Crl {
+    #[verifier::external_body]
+    pub fn authority_key_identifier(&self) -> (r: &KeyIdentifier)
+    { unimplemented!() }
+}
+impl Crl {
+    #[verifier::external_body]
+    pub fn issuer(&self) -> (r: &X509Name)
+    { unimplemented!() }
+}
+impl Manifest {
+    #[verifier::external_body]
+    pub fn decode(source: Bytes, strict: bool) -> (r: Result<Manifest, DecodeError>)
+    { unimplemented!() }
+}
+impl Manifest {
+    #[verifier::external_body]
+    pub fn validate(self, issuer: &ResourceCert, strict: bool) -> (r: Result<(ResourceCert, ManifestContent), ValidationError>)
+    { unimplemented!() }
+}
+impl Manifest {
+    #[verifier::external_body]
+    pub fn validate_at(self, issuer: &ResourceCert, strict: bool, now: Time) -> (r: Result<(ResourceCert, ManifestContent), ValidationError>)
+    { unimplemented!() }
+}
+impl Manifest {
+    #[verifier::external_body]
+    pub fn cert(&self) -> (r: &Cert)
+    { unimplemented!() }
+}
+impl Manifest {
+    #[verifier::external_body]
+    pub fn content(&self) -> (r: &ManifestContent)
+    { unimplemented!() }
+}
+impl ManifestContent {
+    #[verifier::external_body]
+    pub fn manifest_number(&self) -> (r: Serial)
+    { unimplemented!() }
+}
+impl ManifestContent {
+    #[verifier::external_body]
+    pub fn this_update(&self) -> (r: Time)
+    { unimplemented!() }
+}
+impl ManifestContent {
+    #[verifier::external_body]
+    pub fn next_update(&self) -> (r: Time)
+    { unimplemented!() }
+}
+impl ManifestContent {
+    #[verifier::external_body]
+    pub fn file_hash_alg(&self) -> (r: DigestAlgorithm)
+    { unimplemented!() }
+}
+impl ManifestContent {
+    #[verifier::external_body]
+    pub fn iter(&self) -> (r: MftIter)
+    { unimplemented!() }
+}
+impl ManifestContent {
+    #[verifier::external_body]
+    pub fn len(&self) -> (r: usize)
+    { unimplemented!() }
+}
+impl ManifestContent {
+    #[verifier::external_body]
+    pub fn is_empty(&self) -> (r: bool)
+    { unimplemented!() }
+}
+impl ManifestContent {
+    #[verifier::external_body]
+    pub fn is_stale(&self) -> (r: bool)
+    { unimplemented!() }
+}
+impl MftItem {
+    #[verifier::external_body]
+    pub fn new(file: Bytes, hash: Bytes) -> (r: MftItem)
+    { unimplemented!() }
+}
+impl MftItem {
+    #[verifier::external_body]
+    pub fn file(&self) -> (r: &Bytes)
+    { unimplemented!() }
+}
+impl MftItem {
+    #[verifier::external_body]
+    pub fn hash(&self) -> (r: &Bytes)
+    { unimplemented!() }
+}
+impl MftItem {
+    #[verifier::external_body]
+    pub fn into_pair(self) -> (r: (Bytes, Bytes))
+    { unimplemented!() }
+}
+impl MftIter {
+    #[verifier::external_body]
+    pub fn next(&mut self) -> (r: Option<MftItem>)
+    { unimplemented!() }
+}
+impl ManifestHash {
+    #[verifier::external_body]
+    pub fn new(hash: Bytes, algorithm: DigestAlgorithm) -> (r: ManifestHash)
+    { unimplemented!() }
+}
+impl ManifestHash {
+    #[verifier::external_body]
+    pub fn verify(&self, t: &Bytes) -> (r: Result<(), HashMismatch>)
+    { unimplemented!() }
+}
+impl ManifestHash {
+    #[verifier::external_body]
+    pub fn algorithm(&self) -> (r: DigestAlgorithm)
+    { unimplemented!() }
+}
+#[verifier::external_body] pub struct Roa { _opaque: () }
+#[verifier::external_body] pub struct Aspa { _opaque: () }
+#[verifier::external_body] pub struct SignedObject { _opaque: () }
+#[verifier::external_body] pub struct RouteOriginAttestation { _opaque: () }
+#[verifier::external_body] pub struct AsProviderAttestation { _opaque: () }
+#[verifier::external_body] pub struct ProviderAsSet { _opaque: () }
+#[verifier::external_body] pub struct SmallAsnSet { _opaque: () }
+#[verifier::external_body] pub struct Asn { _opaque: () }
+impl Roa {
+    #[verifier::external_body]
+    pub fn decode(source: Bytes, strict: bool) -> (r: Result<Roa, DecodeError>)
+    { unimplemented!() }
+}
+impl Roa {
+    #[verifier::external_body]
+    pub fn cert(&self) -> (r: &Cert)
+    { unimplemented!() }
+}
+impl Roa {
+    #[verifier::external_body]
+    pub fn content(&self) -> (r: &RouteOriginAttestation)
+    { unimplemented!() }
+}
+impl Aspa {
+    #[verifier::external_body]
+    pub fn decode(source: Bytes, strict: bool) -> (r: Result<Aspa, DecodeError>)
+    { unimplemented!() }
+}
+impl Aspa {
+    #[verifier::external_body]
+    pub fn cert(&self) -> (r: &Cert)
+    { unimplemented!() }
+}
+impl Aspa {
+    #[verifier::external_body]
+    pub fn content(&self) -> (r: &AsProviderAttestation)
+    { unimplemented!() }
+}
+impl SignedObject {
+    #[verifier::external_body]
+    pub fn decode(source: Bytes, strict: bool) -> (r: Result<SignedObject, DecodeError>)
+    { unimplemented!() }
+}
+impl SignedObject {
+    #[verifier::external_body]
+    pub fn cert(&self) -> (r: &Cert)
+    { unimplemented!() }
+}
+impl SignedObject {
+    #[verifier::external_body]
+    pub fn signing_time(&self) -> (r: Time)
+    { unimplemented!() }
+}
+impl SignedObject {
+    #[verifier::external_body]
+    pub fn validate(self, issuer: &ResourceCert, strict: bool) -> (r: Result<ResourceCert, ValidationError>)
+    { unimplemented!() }
+}
+impl SignedObject {
+    #[verifier::external_body]
+    pub fn validate_at(self, issuer: &ResourceCert, strict: bool, now: Time) -> (r: Result<ResourceCert, ValidationError>)
+    { unimplemented!() }
+}
+#[verifier::external_body] pub struct RoaIpAddresses { _opaque: () }
+#[verifier::external_body] pub struct RoaIpAddress { _opaque: () }
+#[verifier::external_body] pub struct FriendlyRoaIpAddress { _opaque: () }
+#[verifier::external_body] pub struct ResPrefix { _opaque: () }
+impl RouteOriginAttestation {
+    #[verifier::external_body]
+    pub fn v4_addrs(&self) -> (r: &RoaIpAddresses)
+    { unimplemented!() }
+}
+impl RouteOriginAttestation {
+    #[verifier::external_body]
+    pub fn v6_addrs(&self) -> (r: &RoaIpAddresses)
+    { unimplemented!() }
+}
+impl RoaIpAddresses {
+    #[verifier::external_body]
+    pub fn is_empty(&self) -> (r: bool)
+    { unimplemented!() }
+}
+impl RouteOriginAttestation {
+    #[verifier::external_body]
+    pub fn as_id(&self) -> (r: Asn)
+    { unimplemented!() }
+}
+#[verifier::external_body] pub struct RoaIpAddressIter<'a> { _p: &'a () }
+#[verifier::external_body] pub struct FriendlyIter<'a> { _p: &'a () }
+impl RoaIpAddresses {
+    #[verifier::external_body]
+    pub fn iter(&self) -> (r: RoaIpAddressIter<'_>)
+    { unimplemented!() }
+}
+impl<'a> RoaIpAddressIter<'a> {
+    #[verifier::external_body]
+    pub fn next(&mut self) -> (r: Option<RoaIpAddress>)
+    { unimplemented!() }
+}
+impl RouteOriginAttestation {
+    #[verifier::external_body]
+    pub fn iter(&self) -> (r: FriendlyIter<'_>)
+    { unimplemented!() }
+}
+impl<'a> FriendlyIter<'a> {
+    #[verifier::external_body]
+    pub fn next(&mut self) -> (r: Option<FriendlyRoaIpAddress>)
+    { unimplemented!() }
+}
+impl RoaIpAddress {
+    #[verifier::external_body]
+    pub fn prefix(self) -> (r: ResPrefix)
+    { unimplemented!() }
+}
+impl RoaIpAddress {
+    #[verifier::external_body]
+    pub fn max_length(self) -> (r: Option<u8>)
+    { unimplemented!() }
+}
+impl FriendlyRoaIpAddress {
+    #[verifier::external_body]
+    pub fn prefix(self) -> (r: ResPrefix)
+    { unimplemented!() }
+}
+impl FriendlyRoaIpAddress {
+    #[verifier::external_body]
+    pub fn is_v4(self) -> (r: bool)
+    { unimplemented!() }
+}
+impl FriendlyRoaIpAddress {
+    #[verifier::external_body]
+    pub fn address_length(self) -> (r: u8)
+    { unimplemented!() }
+}
+impl FriendlyRoaIpAddress {
+    #[verifier::external_body]
+    pub fn max_length(self) -> (r: u8)
+    { unimplemented!() }
+}
+impl ResPrefix {
+    #[verifier::external_body]
+    pub fn addr_len(self) -> (r: u8)
+    { unimplemented!() }
+}
+impl AsProviderAttestation {
+    #[verifier::external_body]
+    pub fn customer_as(&self) -> (r: Asn)
+    { unimplemented!() }
+}
+impl AsProviderAttestation {
+    #[verifier::external_body]
+    pub fn provider_as_set(&self) -> (r: &ProviderAsSet)
+    { unimplemented!() }
+}
+impl ProviderAsSet {
+    #[verifier::external_body]
+    pub fn to_set(&self) -> (r: SmallAsnSet)
+    { unimplemented!() }
+}
+impl ProviderAsSet {
+    #[verifier::external_body]
+    pub fn len(&self) -> (r: usize)
+    { unimplemented!() }
+}
+impl SmallAsnSet {
+    #[verifier::external_body]
+    pub fn len(&self) -> (r: usize)
+    { unimplemented!() }
+}
+impl SmallAsnSet {
+    #[verifier::external_body]
+    pub fn is_empty(&self) -> (r: bool)
+    { unimplemented!() }
+}
+impl Asn {
+    #[verifier::external_body]
+    pub fn into_u32(self) -> (r: u32)
+    { unimplemented!() }
+}
+impl Asn {
+    #[verifier::external_body]
+    pub fn from_u32(v: u32) -> (r: Asn)
+    { unimplemented!() }
+}
+impl RsyncUri {
+    #[verifier::external_body]
+    pub fn as_str(&self) -> (r: &str)
+    { unimplemented!() }
+}
+impl RsyncUri {
+    #[verifier::external_body]
+    pub fn to_bytes(&self) -> (r: Bytes)
+    { unimplemented!() }
+}
+impl RsyncUri {
+    #[verifier::external_body]
+    pub fn authority(&self) -> (r: &str)
+    { unimplemented!() }
+}
+impl RsyncUri {
+    #[verifier::external_body]
+    pub fn module_name(&self) -> (r: &str)
+    { unimplemented!() }
+}
+impl RsyncUri {
+    #[verifier::external_body]
+    pub fn module(&self) -> (r: &str)
+    { unimplemented!() }
+}
+impl RsyncUri {
+    #[verifier::external_body]
+    pub fn path(&self) -> (r: &str)
+    { unimplemented!() }
+}
+impl RsyncUri {
+    #[verifier::external_body]
+    pub fn path_is_dir(&self) -> (r: bool)
+    { unimplemented!() }
+}
+impl RsyncUri {
+    #[verifier::external_body]
+    pub fn parent(&self) -> (r: Option<RsyncUri>)
+    { unimplemented!() }
+}
+impl RsyncUri {
+    #[verifier::external_body]
+    pub fn ends_with(&self, extension: &str) -> (r: bool)
+    { unimplemented!() }
+}
+impl RsyncUri {
+    #[verifier::external_body]
+    pub fn relative_to(&self, other: &RsyncUri) -> (r: Option<&str>)
+    { unimplemented!() }
+}
+impl RsyncUri {
+    #[verifier::external_body]
+    pub fn is_parent_of(&self, other: &RsyncUri) -> (r: bool)
+    { unimplemented!() }
+}
+impl RsyncUri {
+    #[verifier::external_body]
+    pub fn has_dubious_authority(&self) -> (r: bool)
+    { unimplemented!() }
+}
+impl HttpsUri {
+    #[verifier::external_body]
+    pub fn as_str(&self) -> (r: &str)
+    { unimplemented!() }
+}
+impl HttpsUri {
+    #[verifier::external_body]
+    pub fn authority(&self) -> (r: &str)
+    { unimplemented!() }
+}
+impl HttpsUri {
+    #[verifier::external_body]
+    pub fn path(&self) -> (r: &str)
+    { unimplemented!() }
+}
+impl Clone for HttpsUri {
+    #[verifier::external_body]
+    fn clone(&self) -> (r: HttpsUri) ensures r == *self { unimplemented!() }
+}
+impl Bytes {
+    #[verifier::external_body]
+    pub fn new() -> (r: Bytes)
+    { unimplemented!() }
+}
+impl Validity {
+    #[verifier::external_body]
+    pub fn new(not_before: Time, not_after: Time) -> (r: Validity)
+    { unimplemented!() }
+}
+impl Validity {
+    #[verifier::external_body]
+    pub fn not_before(self) -> (r: Time)
+    { unimplemented!() }
+}
+impl Validity {
+    #[verifier::external_body]
+    pub fn not_after(self) -> (r: Time)
+    { unimplemented!() }
+}
+impl Validity {
+    #[verifier::external_body]
+    pub fn trim(self, other: Validity) -> (r: Validity)
+    { unimplemented!() }
+}
+impl Time {
+    #[verifier::external_body]
+    pub fn now() -> (r: Time)
+    { unimplemented!() }
+}
+impl Time {
+    #[verifier::external_body]
+    pub fn five_minutes_ago() -> (r: Time)
+    { unimplemented!() }
+}
+impl Time {
+    #[verifier::external_body]
+    pub fn five_minutes_from_now() -> (r: Time)
+    { unimplemented!() }
+}
+impl Time {
+    #[verifier::external_body]
+    pub fn tomorrow() -> (r: Time)
+    { unimplemented!() }
+}
+impl Time {
+    #[verifier::external_body]
+    pub fn next_week() -> (r: Time)
+    { unimplemented!() }
+}
+impl Time {
+    #[verifier::external_body]
+    pub fn next_year() -> (r: Time)
+    { unimplemented!() }
+}
+impl Time {
+    #[verifier::external_body]
+    pub fn timestamp(&self) -> (r: i64)
+    { unimplemented!() }
+}
+impl Time {
+    #[verifier::external_body]
+    pub fn to_binary_time(self) -> (r: i64)
+    { unimplemented!() }
+}
+impl Clone for Time {
+    #[verifier::external_body]
+    fn clone(&self) -> (r: Time) ensures r == *self { unimplemented!() }
+}
+impl Copy for Time {}
+impl Clone for Validity {
+    #[verifier::external_body]
+    fn clone(&self) -> (r: Validity) ensures r == *self { unimplemented!() }
+}
+impl Copy for Validity {}
+impl Clone for Serial {
+    #[verifier::external_body]
+    fn clone(&self) -> (r: Serial) ensures r == *self { unimplemented!() }
+}
+impl Copy for Serial {}
+impl Clone for KeyIdentifier {
+    #[verifier::external_body]
+    fn clone(&self) -> (r: KeyIdentifier) ensures r == *self { unimplemented!() }
+}
+impl Copy for KeyIdentifier {}
+impl Clone for Asn {
+    #[verifier::external_body]
+    fn clone(&self) -> (r: Asn) ensures r == *self { unimplemented!() }
+}
+impl Copy for Asn {}
+impl PublicKey {
+    #[verifier::external_body]
+    pub fn allow_rpki_cert(&self) -> (r: bool)
+    { unimplemented!() }
+}
+impl PublicKey {
+    #[verifier::external_body]
+    pub fn allow_router_cert(&self) -> (r: bool)
+    { unimplemented!() }
+}
+impl PublicKey {
+    #[verifier::external_body]
+    pub fn key_identifier(&self) -> (r: KeyIdentifier)
+    { unimplemented!() }
+}
+impl PublicKey {
+    #[verifier::external_body]
+    pub fn to_info_bytes(&self) -> (r: Bytes)
+    { unimplemented!() }
+}
+impl PublicKey {
+    #[verifier::external_body]
+    pub fn bits_bytes(&self) -> (r: Bytes)
+    { unimplemented!() }
+}
+impl AsResources {
+    #[verifier::external_body]
+    pub fn is_inherited(&self) -> (r: bool)
+    { unimplemented!() }
+}
+impl AsResources {
+    #[verifier::external_body]
+    pub fn is_present(&self) -> (r: bool)
+    { unimplemented!() }
+}
+impl IpResources {
+    #[verifier::external_body]
+    pub fn is_inherited(&self) -> (r: bool)
+    { unimplemented!() }
+}
+impl IpResources {
+    #[verifier::external_body]
+    pub fn is_present(&self) -> (r: bool)
+    { unimplemented!() }
+}
+impl AsBlocks {
+    #[verifier::external_body]
+    pub fn is_empty(&self) -> (r: bool)
+    { unimplemented!() }
+}
+impl IpBlocks {
+    #[verifier::external_body]
+    pub fn is_empty(&self) -> (r: bool)
+    { unimplemented!() }
+}
+impl<'a> CollectorRun<'a> {
+    #[verifier::external_body]
+    fn was_updated(&self, ca: &CaCert) -> (r: bool)
+    { unimplemented!() }
+}
+impl RunFailed {
+    #[verifier::external_body]
+    pub fn is_fatal(self) -> (r: bool)
+    { unimplemented!() }
+}
+impl RunFailed {
+    #[verifier::external_body]
+    pub fn should_retry(self) -> (r: bool)
+    { unimplemented!() }
+}
